@@ -31,6 +31,7 @@ type VC struct {
 	sends     []string
 	fn        *ssa.Function
 	act       *Act
+	without   []string // axioms excluded (lemmas that justify them)
 }
 
 type Obl struct {
@@ -82,6 +83,16 @@ func (vc *VC) assume(guard, fact string) {
 		return
 	}
 	vc.asserts = append(vc.asserts, implies(guard, fact))
+}
+
+// assumeOnce adds an unconditional fact unless it is already present.
+func (vc *VC) assumeOnce(fact string) {
+	for _, a := range vc.asserts {
+		if a == fact {
+			return
+		}
+	}
+	vc.asserts = append(vc.asserts, fact)
 }
 
 func (vc *VC) warn(f string, a ...any) {
@@ -186,7 +197,7 @@ func (o *Obl) scriptWith(produceModel, allDecls bool, trailer string) string {
 	for _, l := range g.background(body) {
 		b.WriteString(l + "\n")
 	}
-	for _, ax := range vc.eng.axiomsFor(body) {
+	for _, ax := range vc.eng.axiomsForExcept(body, vc.without) {
 		b.WriteString("(assert " + ax + ")\n")
 	}
 	for _, a := range vc.asserts[:o.Prefix] {
